@@ -100,7 +100,7 @@ func (e *Enc) frameObligations(fr *Frame, ct *Contract, entry, out *State, reach
 	sort.Strings(names)
 	al0 := e.Get(entry, "$alloc")
 	for _, c := range names {
-		if c == "$alloc" || strings.HasPrefix(c, "L:") || e.w.ambientGhost(c) {
+		if c == "$alloc" || c == "$priv" || strings.HasPrefix(c, "L:") || e.w.ambientGhost(c) {
 			continue
 		}
 		if mod(c) {
